@@ -499,12 +499,18 @@ run_direct(long item, void *arg)
                 DCALL("chacha20-poly1305-init", m->chacha20_poly1305_init, DA(pk[0]), DA(&cctx), DA(iv[0]), DA(aad[0]), 13);
                 DCALL("chacha20-poly1305-enc-update", m->chacha20_poly1305_enc_update, DA(pk[0]), DA(&cctx), DA(out[0]), DA(pm[0]), l);
                 DCALL("chacha20-poly1305-finalize", m->chacha20_poly1305_finalize, DA(&cctx), DA(tag[0]), 16);
+                DCALL("chacha20-poly1305-init", m->chacha20_poly1305_init, DA(pk[0]), DA(&cctx), DA(iv[0]), DA(aad[0]), 13);
+                DCALL("chacha20-poly1305-dec-update", m->chacha20_poly1305_dec_update, DA(pk[0]), DA(&cctx), DA(out[2]), DA(out[0]), l); /* plaintext comes out */
+                DCALL("chacha20-poly1305-finalize", m->chacha20_poly1305_finalize, DA(&cctx), DA(tag[1]), 16);
                 DCALL("zuc-eea3-1-buffer", m->eea3_1_buffer, DA(pk[0]), DA(iv[0]), DA(pm[0]), DA(out[0]), l);
+                DCALL("zuc-eea3-1-buffer(decrypt)", m->eea3_1_buffer, DA(pk[0]), DA(iv[0]), DA(out[0]), DA(out[2]), l);
                 DCALL("zuc-eia3-1-buffer", m->eia3_1_buffer, DA(pk[0]), DA(iv[0]), DA(out[1]), l * 8 - 3, DA(tag[0]));
                 DCALL("snow3g-f8-1-buffer", m->snow3g_f8_1_buffer, DA(pk[0]), DA(iv[0]), DA(pm[0]), DA(out[0]), l);
+                DCALL("snow3g-f8-1-buffer(decrypt)", m->snow3g_f8_1_buffer, DA(pk[0]), DA(iv[0]), DA(out[0]), DA(out[2]), l);
                 DCALL("snow3g-f8-1-buffer-bit", m->snow3g_f8_1_buffer_bit, DA(pk[0]), DA(iv[0]), DA(pm[0]), DA(out[0]), l * 8 - 3, 5);
                 DCALL("snow3g-f9-1-buffer", m->snow3g_f9_1_buffer, DA(pk[0]), DA(iv[0]), DA(out[1]), l * 8 - 3, DA(tag[0]));
                 DCALL("kasumi-f8-1-buffer", m->f8_1_buffer, DA(pk[0]), kiv[0], DA(pm[0]), DA(out[0]), l);
+                DCALL("kasumi-f8-1-buffer(decrypt)", m->f8_1_buffer, DA(pk[0]), kiv[0], DA(out[0]), DA(out[2]), l);
                 DCALL("kasumi-f8-1-buffer-bit", m->f8_1_buffer_bit, DA(pk[0]), kiv[0], DA(pm[0]), DA(out[0]), l * 8 - 3, 5);
                 DCALL("kasumi-f9-1-buffer", m->f9_1_buffer, DA(pk[0]), DA(out[1]), l + 9, DA(tag[0]));
                 DCALL("kasumi-f9-1-buffer-user", m->f9_1_buffer_user, DA(pk[0]), kiv[0], DA(out[1]), l * 8 - 3, DA(tag[0]), 1);
